@@ -17,7 +17,7 @@ def kindOf (n : Nat) : Kind :=
 
 def pHook : Parser Hook := do
   let id ← nat; let event ← nat; let k ← nat; let ht ← bool; let n ← nat
-  let ts ← many n nat
+  let ts ← many n int
   let c ← nat; let inst ← oNat
   pure { id, event, kind := kindOf k, times := if ht then some ts else none,
          cls := if c = 0 then none else if c = 1 then some .market else some .index, inst }
@@ -37,7 +37,7 @@ def stepLine (tbl : Table) (line : String) : Table × List String :=
     let market := match optNat mid with
       | some m => some (m, isIndex = "1")
       | none => none
-    let hs := dispatch tbl (kindOf k.toNat!) t.toNat! market
+    let hs := dispatch tbl (kindOf k.toNat!) t.toInt! market
     (tbl, ["D" ++ String.join (hs.map (fun h => s!" {h.event}"))])
   | t :: _ => (tbl, [s!"E unknown {t}"])
 
